@@ -247,7 +247,7 @@ class Check:
             h['why'] = f'unhandled {type(e).__name__} in harness: {e}'
         except z3.Z3Exception as e:
             h['status'] = 'inconclusive'
-            h['why'] = f'z3: {e}'
+            h['why'] = f'z3: {e}' + (' @ ' + ' <- '.join(f'{f.name}:{f.lineno}' for f in traceback.extract_tb(e.__traceback__)[-6:]) if os.environ.get('VERIF_PROGRESS') else '')
         h['wall_s'] = round(time.time() - t, 3)
         h['queries'] = ctx.queries
         h['solver_s'] = round(ctx.solver_time, 3)
@@ -324,6 +324,17 @@ class Check:
 
     def _run_job(self, i):
         kind, name, fn, kw = self.jobs[i]
+        if os.environ.get('VERIF_PROGRESS'):
+            print(f'[{self.pid}] start {name}', file=sys.stderr, flush=True)
+            _t0 = time.time()
+            try:
+                return self._run_job2(i)
+            finally:
+                print(f'[{self.pid}] done  {name} {time.time() - _t0:.1f}s', file=sys.stderr, flush=True)
+        return self._run_job2(i)
+
+    def _run_job2(self, i):
+        kind, name, fn, kw = self.jobs[i]
         self.eng.covered, self.eng.model_hits = {}, {}
         if kind == 'harness':
             try:
@@ -363,6 +374,11 @@ class Check:
         if not hasattr(self.replay, 'bin'):
             self.replay.build()
         nproc = int(os.environ.get('VERIF_JOBS', '0') or 0) or min(16, os.cpu_count() or 4)
+        only = os.environ.get('VERIF_ONLY')
+        if only:
+            # development aid: run only the harnesses whose name contains one of the ';'-separated substrings (never used by the registered commands)
+            self.jobs = [j for j in self.jobs if any(x in j[1] for x in only.split(';'))]
+            print(f'[{self.pid}] VERIF_ONLY={only}: {len(self.jobs)} jobs', file=sys.stderr)
         results = []
         samples = list(self.samples)
         validated, mism = 0, []
